@@ -26,7 +26,7 @@ import (
 
 func init() { registerGen("PlaylistMedia.lean", genPlaylistMedia) }
 
-func leanChar(c byte) string {
+func plmLeanChar(c byte) string {
 	switch c {
 	case '\'':
 		return `'\''`
@@ -47,18 +47,18 @@ func leanChar(c byte) string {
 	return "'" + string(c) + "'"
 }
 
-func leanChars(s string) string {
+func plmLeanChars(s string) string {
 	if s == "" {
 		return "([] : List Char)"
 	}
 	var cs []string
 	for i := 0; i < len(s); i++ {
-		cs = append(cs, leanChar(s[i]))
+		cs = append(cs, plmLeanChar(s[i]))
 	}
 	return "[" + strings.Join(cs, ",") + "]"
 }
 
-func strLit(e ast.Expr) (string, bool) {
+func plmStrLit(e ast.Expr) (string, bool) {
 	bl, ok := e.(*ast.BasicLit)
 	if !ok || bl.Kind != token.STRING {
 		return "", false
@@ -70,14 +70,14 @@ func strLit(e ast.Expr) (string, bool) {
 	return s, true
 }
 
-func exprString(p *pkgSrc, e ast.Expr) string {
+func plmExprString(p *pkgSrc, e ast.Expr) string {
 	var b strings.Builder
 	printer.Fprint(&b, p.fset, e)
 	return b.String()
 }
 
 // isCall reports whether e is pkg.name(args…) and returns the args.
-func isSelCall(e ast.Expr, pkg, name string) ([]ast.Expr, bool) {
+func plmIsSelCall(e ast.Expr, pkg, name string) ([]ast.Expr, bool) {
 	c, ok := e.(*ast.CallExpr)
 	if !ok {
 		return nil, false
@@ -115,7 +115,7 @@ func genPlaylistMedia(r *repo) string {
 	if sw == nil {
 		fatalf("playlist media: the tagless switch inside the for loop of Media.Unmarshal was not found")
 	}
-	b.WriteString("/-- `switch { case … }` of `Media.Unmarshal` (" + relPos(r, p, sw.Pos()) + "): (test, literal, body starts with `line = line[len(literal):]`) -/\n")
+	b.WriteString("/-- `switch { case … }` of `Media.Unmarshal` (" + plmRelPos(r, p, sw.Pos()) + "): (test, literal, body starts with `line = line[len(literal):]`) -/\n")
 	b.WriteString("def dispatch : List (Kind × List Char × Bool) := [\n")
 	var rows []string
 	for _, cc := range sw.Body.List {
@@ -125,35 +125,35 @@ func genPlaylistMedia(r *repo) string {
 		}
 		cond := c.List[0]
 		kind, lit := "", ""
-		if args, ok := isSelCall(cond, "strings", "HasPrefix"); ok && len(args) == 2 && exprString(p, args[0]) == "line" {
-			s, ok := strLit(args[1])
+		if args, ok := plmIsSelCall(cond, "strings", "HasPrefix"); ok && len(args) == 2 && plmExprString(p, args[0]) == "line" {
+			s, ok := plmStrLit(args[1])
 			if !ok {
 				fatalf("playlist media: HasPrefix with a non-literal prefix")
 			}
 			kind, lit = "pfx", s
-		} else if be, ok := cond.(*ast.BinaryExpr); ok && be.Op == token.EQL && exprString(p, be.X) == "line" {
-			s, ok := strLit(be.Y)
+		} else if be, ok := cond.(*ast.BinaryExpr); ok && be.Op == token.EQL && plmExprString(p, be.X) == "line" {
+			s, ok := plmStrLit(be.Y)
 			if !ok {
 				fatalf("playlist media: line == non-literal")
 			}
 			kind, lit = "eq", s
-		} else if exprString(p, cond) == "len(line) != 0 && line[0] != '#'" {
+		} else if plmExprString(p, cond) == "len(line) != 0 && line[0] != '#'" {
 			kind, lit = "uriLine", ""
 		} else {
-			fatalf("playlist media: unexpected case condition %q", exprString(p, cond))
+			fatalf("playlist media: unexpected case condition %q", plmExprString(p, cond))
 		}
 		sliced := false
 		if len(c.Body) > 0 {
-			if as, ok := c.Body[0].(*ast.AssignStmt); ok && len(as.Lhs) == 1 && len(as.Rhs) == 1 && exprString(p, as.Lhs[0]) == "line" {
+			if as, ok := c.Body[0].(*ast.AssignStmt); ok && len(as.Lhs) == 1 && len(as.Rhs) == 1 && plmExprString(p, as.Lhs[0]) == "line" {
 				want := "line[len(" + strconv.Quote(lit) + "):]"
-				if exprString(p, as.Rhs[0]) == want {
+				if plmExprString(p, as.Rhs[0]) == want {
 					sliced = true
-				} else if strings.HasPrefix(exprString(p, as.Rhs[0]), "line[") {
-					fatalf("playlist media: case %q slices the line with %s (expected %s)", lit, exprString(p, as.Rhs[0]), want)
+				} else if strings.HasPrefix(plmExprString(p, as.Rhs[0]), "line[") {
+					fatalf("playlist media: case %q slices the line with %s (expected %s)", lit, plmExprString(p, as.Rhs[0]), want)
 				}
 			}
 		}
-		rows = append(rows, fmt.Sprintf("  (.%s, %s, %v)", kind, leanChars(lit), sliced))
+		rows = append(rows, fmt.Sprintf("  (.%s, %s, %v)", kind, plmLeanChars(lit), sliced))
 	}
 	b.WriteString(strings.Join(rows, ",\n") + "]\n\n")
 
@@ -174,10 +174,10 @@ func genPlaylistMedia(r *repo) string {
 		ast.Inspect(fd.Body, func(n ast.Node) bool {
 			switch x := n.(type) {
 			case *ast.SwitchStmt:
-				if x.Tag != nil && exprString(p, x.Tag) == "key" {
+				if x.Tag != nil && plmExprString(p, x.Tag) == "key" {
 					for _, cc := range x.Body.List {
 						for _, e := range cc.(*ast.CaseClause).List {
-							s, ok := strLit(e)
+							s, ok := plmStrLit(e)
 							if !ok {
 								fatalf("playlist media: %s.unmarshal: non-literal attribute key", tn)
 							}
@@ -186,8 +186,8 @@ func genPlaylistMedia(r *repo) string {
 					}
 				}
 			case *ast.BinaryExpr:
-				if x.Op == token.EQL && exprString(p, x.X) == "key" {
-					if s, ok := strLit(x.Y); ok {
+				if x.Op == token.EQL && plmExprString(p, x.X) == "key" {
+					if s, ok := plmStrLit(x.Y); ok {
 						keys = append(keys, s)
 					}
 				}
@@ -196,7 +196,7 @@ func genPlaylistMedia(r *repo) string {
 		})
 		var ks []string
 		for _, k := range keys {
-			ks = append(ks, leanChars(k))
+			ks = append(ks, plmLeanChars(k))
 		}
 		rows = append(rows, fmt.Sprintf("  (%s, [%s])", strconv.Quote(tn), strings.Join(ks, ", ")))
 	}
@@ -210,8 +210,8 @@ func genPlaylistMedia(r *repo) string {
 		var lits []string
 		ast.Inspect(fd.Body, func(n ast.Node) bool {
 			if bl, ok := n.(*ast.BasicLit); ok && bl.Kind == token.STRING {
-				s, _ := strLit(bl)
-				lits = append(lits, leanChars(s))
+				s, _ := plmStrLit(bl)
+				lits = append(lits, plmLeanChars(s))
 			}
 			return true
 		})
@@ -222,33 +222,33 @@ func genPlaylistMedia(r *repo) string {
 	// ---- 4. Media.Marshal as an event list
 	mm := p.mustFunc("Media", "Marshal")
 	b.WriteString("inductive Ev where\n  | lit (s : List Char)      -- a string literal\n  | call (recv : String)     -- `recv.marshal()`\n  | fmtInt (arg : String)    -- `strconv.FormatInt(int64(arg), 10)`\n  | cond (e : String)        -- `if e {` / `for … range e {`\n  deriving DecidableEq, Repr\n\n")
-	b.WriteString("/-- `Media.Marshal` (" + relPos(r, p, mm.Pos()) + ") in source order -/\n")
+	b.WriteString("/-- `Media.Marshal` (" + plmRelPos(r, p, mm.Pos()) + ") in source order -/\n")
 	b.WriteString("def mediaMarshal : List Ev := [\n")
 	rows = nil
 	var walk func(n ast.Node) bool
 	walk = func(n ast.Node) bool {
 		switch x := n.(type) {
 		case *ast.IfStmt:
-			rows = append(rows, "  .cond "+strconv.Quote(exprString(p, x.Cond)))
+			rows = append(rows, "  .cond "+strconv.Quote(plmExprString(p, x.Cond)))
 		case *ast.RangeStmt:
-			rows = append(rows, "  .cond "+strconv.Quote("range "+exprString(p, x.X)))
+			rows = append(rows, "  .cond "+strconv.Quote("range "+plmExprString(p, x.X)))
 		case *ast.BasicLit:
 			if x.Kind == token.STRING {
-				s, _ := strLit(x)
-				rows = append(rows, "  .lit "+leanChars(s))
+				s, _ := plmStrLit(x)
+				rows = append(rows, "  .lit "+plmLeanChars(s))
 			}
 		case *ast.CallExpr:
-			if args, ok := isSelCall(x, "strconv", "FormatInt"); ok {
-				if len(args) != 2 || exprString(p, args[1]) != "10" {
+			if args, ok := plmIsSelCall(x, "strconv", "FormatInt"); ok {
+				if len(args) != 2 || plmExprString(p, args[1]) != "10" {
 					fatalf("playlist media: FormatInt with unexpected arguments in Media.Marshal")
 				}
-				a := exprString(p, args[0])
+				a := plmExprString(p, args[0])
 				a = strings.TrimSuffix(strings.TrimPrefix(a, "int64("), ")")
 				rows = append(rows, "  .fmtInt "+strconv.Quote(a))
 				return false
 			}
 			if s, ok := x.Fun.(*ast.SelectorExpr); ok && s.Sel.Name == "marshal" && len(x.Args) == 0 {
-				rows = append(rows, "  .call "+strconv.Quote(exprString(p, s.X)))
+				rows = append(rows, "  .call "+strconv.Quote(plmExprString(p, s.X)))
 				return false
 			}
 		}
@@ -263,17 +263,17 @@ func genPlaylistMedia(r *repo) string {
 	if !ok {
 		fatalf("playlist media: maxSupportedVersion not found")
 	}
-	b.WriteString("def maxSupportedVersion : Int := " + exprString(p, mv.expr) + "\n\n")
+	b.WriteString("def maxSupportedVersion : Int := " + plmExprString(p, mv.expr) + "\n\n")
 	for _, n := range []string{"timeRFC3339Millis", "timeISO8601Millis"} {
 		c, ok := consts[n]
 		if !ok {
 			fatalf("playlist media: %s not found", n)
 		}
-		s, ok := strLit(c.expr)
+		s, ok := plmStrLit(c.expr)
 		if !ok {
 			fatalf("playlist media: %s is not a string literal", n)
 		}
-		b.WriteString("def " + n + " : List Char := " + leanChars(s) + "\n")
+		b.WriteString("def " + n + " : List Char := " + plmLeanChars(s) + "\n")
 	}
 	b.WriteString("\n")
 
@@ -298,20 +298,20 @@ func genPlaylistMedia(r *repo) string {
 		}
 		var bs, fs []string
 		ast.Inspect(af, func(n ast.Node) bool {
-			if args, ok := isSelCall2(n, "strconv", "ParseUint"); ok {
-				if len(args) != 3 || exprString(s.pk, args[1]) != "10" {
+			if args, ok := plmIsSelCall2(n, "strconv", "ParseUint"); ok {
+				if len(args) != 3 || plmExprString(s.pk, args[1]) != "10" {
 					fatalf("playlist media: ParseUint with unexpected base in %s", s.file)
 				}
-				bs = append(bs, exprString(s.pk, args[2]))
+				bs = append(bs, plmExprString(s.pk, args[2]))
 			}
-			if args, ok := isSelCall2(n, "strconv", "FormatFloat"); ok {
+			if args, ok := plmIsSelCall2(n, "strconv", "FormatFloat"); ok {
 				if len(args) != 4 {
 					fatalf("playlist media: FormatFloat arity in %s", s.file)
 				}
-				fs = append(fs, strconv.Quote(exprString(s.pk, args[1])+","+exprString(s.pk, args[2])+","+exprString(s.pk, args[3])))
+				fs = append(fs, strconv.Quote(plmExprString(s.pk, args[1])+","+plmExprString(s.pk, args[2])+","+plmExprString(s.pk, args[3])))
 			}
-			if args, ok := isSelCall2(n, "strconv", "ParseFloat"); ok {
-				if len(args) != 2 || exprString(s.pk, args[1]) != "64" {
+			if args, ok := plmIsSelCall2(n, "strconv", "ParseFloat"); ok {
+				if len(args) != 2 || plmExprString(s.pk, args[1]) != "64" {
 					fatalf("playlist media: ParseFloat bit size in %s", s.file)
 				}
 			}
@@ -334,16 +334,16 @@ func genPlaylistMedia(r *repo) string {
 	return b.String()
 }
 
-// relPos is file:line relative to the repository root (so that the generated text does not depend on where the tree is)
-func relPos(r *repo, p *pkgSrc, pos token.Pos) string {
+// plmRelPos is file:line relative to the repository root (so that the generated text does not depend on where the tree is)
+func plmRelPos(r *repo, p *pkgSrc, pos token.Pos) string {
 	ps := p.fset.Position(pos)
 	return strings.TrimPrefix(strings.TrimPrefix(ps.Filename, r.root), "/") + ":" + strconv.Itoa(ps.Line)
 }
 
-func isSelCall2(n ast.Node, pkg, name string) ([]ast.Expr, bool) {
+func plmIsSelCall2(n ast.Node, pkg, name string) ([]ast.Expr, bool) {
 	e, ok := n.(ast.Expr)
 	if !ok {
 		return nil, false
 	}
-	return isSelCall(e, pkg, name)
+	return plmIsSelCall(e, pkg, name)
 }
